@@ -82,6 +82,7 @@ def run_compiled(ctx, n):
         prog = gen.Program("e", salt, ["uid"], ("ret", groups), {"uid": "any"})
         text = gen.render(prog)
         envs = [{"uid": rng.choice([rng.randrange(10 ** 9), "user_%d" % rng.randrange(10 ** 6)])} for _ in range(4)]
+        envs.append({"uid": ""})          # with no salt the key is the empty string: still a key
         cases.append({"prog": prog, "text": text, "envs": envs})
     progcases.run_cases(ctx, cases, want_stages=False)
 
@@ -94,7 +95,9 @@ def run_compiled_at_positions(ctx, n):
     vectors[:0] = [["1000000", "1", "1000000"], ["1000", "0.001"], ["0", "1"], ["123456.7", "0.5", "7654321"], ["0.0000001", "1000000"]]
     with choicelib.SubstitutedPosition():
         for ws_text in vectors:
-            groups = ", ".join('"g%d" weighted %s' % (i, w) for i, w in enumerate(ws_text))
+            repeat = rng.random() < 0.3           # the same label may be declared more than once: positions still count
+            lab = (lambda i: i % 2) if repeat else (lambda i: i)
+            groups = ", ".join('"g%d" weighted %s' % (lab(i), w) for i, w in enumerate(ws_text))
             try:
                 ev, _ = common.quiet(lambda: ExperimentEvaluator("def e { splitters: uid return %s }" % groups))
             except Exception as ex:  # noqa
@@ -105,7 +108,7 @@ def run_compiled_at_positions(ctx, n):
                 exact, allowed = gen.spec_indices(ws_text, h)
                 ctx.case(("compiled", tuple(ws_text), h), True)
                 ctx.count("compiled-at-position")
-                if "g" not in out or out["g"].get("s") not in {"g%d" % i for i in allowed}:
+                if "g" not in out or out["g"].get("s") not in {"g%d" % lab(i) for i in allowed}:
                     ctx.violation(f"compiled experiment with weights {ws_text[:8]} at position {h}/2^32 returns {json.dumps(out)}, the interval "
                                   f"rule selects g{exact}", {"weights": ws_text, "h": h, "impl": out, "spec_exact": exact})
 
